@@ -20,6 +20,30 @@ CLAIMS = {
  "C19": ("proof", "SSA pattern obligations on autometa.Load + re-evaluated C07 premises",
    "Loader table identity and order, whole-table iteration in index order, stream chaining phi{r,nextStream}, verbatim success return, exhaustion return, no stale-stream exit, no other use of r; plus C07's obligations re-evaluated on the same tree. Together they entail that the auto loader returns exactly what the first succeeding specific loader returns on the complete input, for every input.",
    "Trusted: as C07. The equality of a specific loader's behaviour when called through the table vs directly follows from function identity (resolved *ssa.Function), not from names.", "DESIGN.md §4 C19"),
+ "C01": ("other", "abstract interpretation of go/ssa to exact piecewise rational forms compared with the published EOTFs; loop-summary of the table builders; who-may-write on table variables",
+   "Decides, for every code at once, the structural part of C01: the decode curves equal the published transfer functions constant by constant (thresholds inside the window where the published branches agree to 1e-7, Pow formed in float64), the table builders sample curve(i/(N-1)) at every index, each table variable is filled once from its package's own curve and never written elsewhere, the decoders return table[v] unmodified, Display P3 uses sRGB's tables, constructors map channels positionally. The 3e-7 / exact-endpoints / monotone / 8-vs-16-bit clauses then follow by the a-priori rounding argument in DESIGN.md. It does not measure any table entry.",
+   "Trusted: go/ssa, the interpreter, math.Pow < 1 ulp, the transfer-function tables embedded in the checker. Not decided: measured numeric error.", "DESIGN.md §4 C01"),
+ "C02": ("other", "abstract interpretation of go/ssa to exact piecewise forms (quantisers, OETFs), writer/reader table agreement, who-may-convert scan",
+   "Decides for every float32 at once: quantisers clamp the float before converting (so ±Inf/huge values clip), round by Trunc(v*MAX+1/2) in a type wide enough; encode curves equal the published OETFs; builders fill all N entries with quantiser(curve(i/(N-1))); encoders index exactly that table with a clamping quantiser whose MAX is N-1 (index always in range: no panic); no other float-to-integer conversion exists in the colour packages; all colour types route through the right tables. Monotonicity and the half-step/half-code accuracy then follow by composition.",
+   "Trusted: go/ssa, the interpreter, math.Pow monotone. Assumes uintN(NaN)=0 (amd64/arm64). Not decided: measured error, NaN on other architectures.", "DESIGN.md §4 C02"),
+ "C03": ("other", "abstract interpretation of go/ssa to exact linear forms; exact rational arithmetic on the float32-rounded literals",
+   "Extracts the 72 matrix coefficients and the 16 declared chromaticities and decides in exact arithmetic: both maps are homogeneous linear with no guard/clamp/fast path; declared chromaticities equal the published ones; M*(1,1,1) is the declared white; each column has its primary's chromaticity (together these determine M); Minv*M = M*Minv = I; tolerances = the property's 1e-6 minus the a-priori float32 forward bound. This covers all RGB/XYZ triples because the maps are proven linear.",
+   "Trusted: go/ssa, the interpreter, published chromaticity tables. Not decided: the measured 2e-6 float32 round-trip figure.", "DESIGN.md §4 C03"),
+ "C04": ("other", "exact rational evaluation of the 16 pipeline pairings from extracted matrices and the repository's own Bradford construction; re-evaluation of the stage rules",
+   "Structural clauses only (stated plainly: per-pixel agreement with a float64 reference over 2^24x16 cases is numeric and NOT decided): for all 16 ordered pairs the composed matrix Minv_dst*A*M_src preserves the grey axis within 1e-5 and is the identity for src=dst; alpha is decoded as A/255 and re-encoded by the MAX-255 quantiser of the same value; encoders clip; and every stage rule the pipeline is made of (C01.curve, C02.*, C03.*, C12.*) is re-evaluated on the same tree.",
+   "Trusted: as C01-C03, C12. Assumes callers compose the pipeline as the README documents.", "DESIGN.md §4 C04"),
+ "C12": ("other", "rational-function normal forms over symbolic white points and symbolic Bradford matrices (go/ssa abstract interpretation)",
+   "Bradford literals equal the published matrix (column-vector convention), bradfordInverse*bradfordForward = I exactly, AdaptBetweenXYZWhitePoints is identically Binv*diag((B d)/(B s))*B with no guard, the xyY variant is the XYZ variant of ColorFromXYY(args) in order, Apply is the plain linear map. White-to-white, identity, inverse, composition and linearity follow by algebra for every white-point pair.",
+   "Trusted: go/ssa, the interpreter. Not decided: float rounding (float64 until the final float32), conditioning near zero cone responses.", "DESIGN.md §4 C12"),
+ "C13": ("other", "piecewise exact forms of the Lab conversion compared with the CIE 1976 definition; exact-rational constants",
+   "epsilon=216/24389 and kappa=24389/27 exactly (junction continuity is an exact identity), forward and inverse component functions and their guards equal the CIE definition, each component is divided/multiplied by the same axis of the reference white, the Y shortcut uses the same threshold, every fractional Pow is guarded by base > epsilon > 0 (no NaN). White->(100,0,0), a=b=0 on the white axis, monotone L and branchwise inversion follow by algebra.",
+   "Trusted: go/ssa, the interpreter, math.Pow. Not decided: measured error (float64 arithmetic, one float32 rounding).", "DESIGN.md §4 C13"),
+ "C14": ("other", "exact forms of every decoder/encoder and colour function (go/ssa abstract interpretation); table agreement of divisor and quantiser MAX",
+   "Every decoder returns alpha = A/MAX and the zero colour for A == 0 and un-premultiplies by that same alpha; every encoder writes A = NormalisedToN(alpha) of the unscaled parameter with the same MAX; LineariseColor/EncodeColor pass the decoder's alpha to the encoder unchanged. Bit-identity of alpha for all 65,536 values follows (|MAX*fl(A/MAX)-A| < 1/2). The clause 'channel <= alpha stays valid after rounding' is NOT claimed (no static argument in reach).",
+   "Trusted: go/ssa, the interpreter.", "DESIGN.md §4 C14"),
+ "C20": ("other", "polynomial identities over symbolic matrix entries (go/ssa abstract interpretation + exact normal forms)",
+   "MulV, MulM, Transpose, Dot, MulS equal the textbook polynomials; Inverse satisfies M*N = N*M = I as 18 identities of rational functions with the Leibniz determinant as the only guard (panic iff det == 0); the primaries generator maps (1,1,1) to the white XYZ and each column is parallel to its primary for all 12 chromaticity inputs; the from-matrix is Inverse(to-matrix) on the same arguments. Decides the algebra for every input; float64 rounding of these identities is not analysed.",
+   "Trusted: go/ssa, the interpreter, polynomial arithmetic. Not decided: the 1e-9*cond figure, exact-cancellation behaviour for exactly singular float inputs.", "DESIGN.md §4 C20"),
 }
 
 PENDING_REASON = "check not built yet in this revision (static rules designed in DESIGN.md §4; see git log) — not claimed until the checker for it is committed"
